@@ -248,6 +248,8 @@ type flowTracker struct {
 	traces     <-chan tracing.ITrace
 	shutdownCh chan bool
 	flows      map[id.Id]schema.Id
+	// forks: the inclusive gateways seen forking (the locations that name a cohort)
+	forks      map[schema.Id]bool
 	activityCh chan struct{}
 	lock       sync.RWMutex
 	element    *schema.InclusiveGateway
@@ -265,6 +267,7 @@ func newFlowTracker(tracer tracing.ITracer, element *schema.InclusiveGateway) *f
 		traces:     sub,
 		shutdownCh: make(chan bool),
 		flows:      make(map[id.Id]schema.Id),
+		forks:      make(map[schema.Id]bool),
 		activityCh: make(chan struct{}, 1),
 		element:    element,
 	}
@@ -355,6 +358,20 @@ func (tracker *flowTracker) handleTrace(locked bool, trace tracing.ITrace, notif
 	}
 	switch t := trace.(type) {
 	case FlowTrace:
+		// A flow forked inside a branch of an inclusive fork (by a parallel
+		// gateway, or by an activity with several outgoing flows) belongs to the
+		// cohort of that fork, like the flow that forked it: the join must wait
+		// for it as well.
+		_, sourceIsInclusive := t.Source.(*schema.InclusiveGateway)
+		var inherited *schema.Id
+		if !sourceIsInclusive {
+			for _, snapshot := range t.Flows {
+				if location, ok := tracker.flows[snapshot.Id()]; ok && tracker.forks[location] {
+					inherited = &location
+					break
+				}
+			}
+		}
 		for _, snapshot := range t.Flows {
 			// If we haven't reached the node
 			if !reachedNode {
@@ -367,7 +384,12 @@ func (tracker *flowTracker) handleTrace(locked bool, trace tracing.ITrace, notif
 			if idPtr, present := t.Source.Id(); present {
 				_, ok := tracker.flows[snapshot.Id()]
 				_, isInclusive := t.Source.(*schema.InclusiveGateway)
-				if !ok || isInclusive {
+				if isInclusive {
+					tracker.forks[*idPtr] = true
+				}
+				if !ok && inherited != nil {
+					tracker.flows[snapshot.Id()] = *inherited
+				} else if !ok || isInclusive {
 					tracker.flows[snapshot.Id()] = *idPtr
 				}
 			}
